@@ -307,7 +307,7 @@ func (d *Decoder) readUntypedList(tag byte) (interface{}, error) {
 		it, err := d.ReadData()
 		if err != nil {
 			if err == io.EOF && isVariableArr {
-				continue
+				break
 			}
 			return nil, newCodecError("readUntypedList", err)
 		}
